@@ -48,7 +48,7 @@ ALL_DEVIATIONS = ["rhs_converted_in_place", "log_operands_to_linear", "arg_conve
                   "ctor_shares_magnitude", "ctor_mutates_magnitude"]
 FIXED_DEVIATIONS = sorted(set(A.repaired_deviations(PID, ALL_DEVIATIONS)) |
                           {x for x in os.environ.get("VERIF_C07_FIXED", "").split(",") if x})      # (env: trial of a patch only)
-REP_PURE = ["add", "mul", "eq", "neg", "np.sqrt", "np.abs", "np.linspace", "np.sin", "value", "ctor_dict", "getitem", "radd"]
+REP_PURE = ["add", "mul", "eq", "neg", "np.sqrt", "np.abs", "np.linspace", "np.sin", "value", "ctor_dict", "getitem", "radd", "pow1"]
 REP_PURE_QUICK = ["add", "mul", "eq", "neg", "np.abs", "np.linspace", "ctor_dict"]
 QUICK_REPAIRED = ["other_unit", "dB_same", "decimal_right", "array_uncertain", "angles", "dimensionless"]
 
@@ -171,6 +171,15 @@ def perform(a, objs, umap, k):
     if op == "eqn": return x == 2
     if op == "np.linspace_qn": return np.linspace(x, 5, 3)
     if op == "np.logspace_qn": return np.logspace(x, 2, 3)
+    if op == "muln1": return x * 1
+    if op == "divn1": return x / 1
+    if op == "rmul1": return 1 * x
+    if op == "addn0": return x + 0
+    if op == "subn0": return x - 0
+    if op == "pow1": return x ** 1
+    if op == "pow_pair11": return x ** (2, 2)
+    if op == "pow_float1": return x ** 1.0
+    if op == "np.power1": return np.power(x, 1)
     if op == "neg": return -x
     if op == "pow2": return x ** 2
     if op == "getitem": return x[:2]
